@@ -450,12 +450,15 @@ package jsonschema
 //@   entry
 //@   requires isold(op.props) && isold(op.order)
 //@   requires nodup: forall i int, j int {op.order[i], op.order[j]} :: 0 <= i && i < j && j < len(op.order) ==> op.order[i] != op.order[j]
-//@   atreturn[C19] complete uses first3,procin3,rem3,all3: result1 == nil ==> (forall k string {has(op.props, k)} :: has(op.props, k) ==> (exists i int :: 0 <= i && i < nent(BufVal[buf]) && keyAt(BufVal[buf], i) == k))
-//@   atreturn[C19] sound uses first1,snd1,first3,rem3p,in3,same3,same3b: result1 == nil ==> (forall i int {keyAt(BufVal[buf], i)} :: 0 <= i && i < nent(BufVal[buf]) ==> has(op.props, keyAt(BufVal[buf], i)) && valAt(BufVal[buf], i) == op.props[keyAt(BufVal[buf], i)])
-//@   atreturn[C19] once uses first3,lst3,rem3p,in3,dist3,ord3: result1 == nil ==> (forall a int, b int {keyAt(BufVal[buf], a), keyAt(BufVal[buf], b)} :: 0 <= a && a < b && b < nent(BufVal[buf]) ==> keyAt(BufVal[buf], a) != keyAt(BufVal[buf], b))
-//@   atreturn[C19] listedfirst uses first3,lst3,rem3p,notin3: result1 == nil ==> (forall a int, b int {keyAt(BufVal[buf], a), keyAt(BufVal[buf], b)} :: 0 <= a && a < nent(BufVal[buf]) && 0 <= b && b < nent(BufVal[buf]) && inOrder(op, keyAt(BufVal[buf], a)) && !inOrder(op, keyAt(BufVal[buf], b)) ==> a < b)
-//@   atreturn[C19] listedorder uses first3,ord3,rem3p,notin3: result1 == nil ==> (forall a int, b int, ja int, jb int {keyAt(BufVal[buf], a), keyAt(BufVal[buf], b), op.order[ja], op.order[jb]} :: 0 <= a && a < b && b < nent(BufVal[buf]) && 0 <= ja && ja < len(op.order) && 0 <= jb && jb < len(op.order) && op.order[ja] == keyAt(BufVal[buf], a) && op.order[jb] == keyAt(BufVal[buf], b) ==> ja < jb)
-//@   atreturn[C19] restsorted uses first3,lst3,rem3p,sorted3: result1 == nil ==> (forall a int, b int {keyAt(BufVal[buf], a), keyAt(BufVal[buf], b)} :: 0 <= a && a < b && b < nent(BufVal[buf]) && !inOrder(op, keyAt(BufVal[buf], a)) && !inOrder(op, keyAt(BufVal[buf], b)) ==> keyAt(BufVal[buf], a) <= keyAt(BufVal[buf], b))
+//@   atreturn[C19] sound uses first3,lst3,rem3p,in3: result1 == nil ==> new(buf) && isold(op.props) && (forall i int {keyAt(BufVal[buf], i)} :: 0 <= i && i < nent(BufVal[buf]) ==> has(op.props, keyAt(BufVal[buf], i)))
+//@   atreturn[C19] soundv uses first3,lst3,rem3p,in3: result1 == nil ==> new(buf) && isold(op.props) && (forall i int {valAt(BufVal[buf], i)} :: 0 <= i && i < nent(BufVal[buf]) ==> valAt(BufVal[buf], i) == op.props[keyAt(BufVal[buf], i)])
+//@   atreturn[C19] lemrest uses first3,rem3: result1 == nil ==> new(buf) && newOrNil(remaining) && (forall i int {remaining[i]} :: 0 <= i && i < len(remaining) ==> (exists p int :: 0 <= p && p < nent(BufVal[buf]) && keyAt(BufVal[buf], p) == remaining[i]))
+//@   atreturn[C19] lemlisted uses first3,procin3: result1 == nil ==> new(buf) && new(processed) && (forall k string {has(processed, k)} :: has(processed, k) && processed[k] ==> (exists p int :: 0 <= p && p < nent(BufVal[buf]) && keyAt(BufVal[buf], p) == k))
+//@   atreturn[C19] complete uses all3: result1 == nil ==> new(buf) && new(processed) && newOrNil(remaining) && isold(op.props) && (forall k string {has(op.props, k)} :: has(op.props, k) ==> (exists i int :: 0 <= i && i < nent(BufVal[buf]) && keyAt(BufVal[buf], i) == k))
+//@   atreturn[C19] once uses first3,lst3,rem3p,in3,dist3,ord3: result1 == nil ==> new(buf) && isold(op.props) && isold(op.order) && (forall a int, b int {keyAt(BufVal[buf], a), keyAt(BufVal[buf], b)} :: 0 <= a && a < b && b < nent(BufVal[buf]) ==> keyAt(BufVal[buf], a) != keyAt(BufVal[buf], b))
+//@   atreturn[C19] listedfirst uses first3,lst3,rem3p,notin3: result1 == nil ==> new(buf) && isold(op.props) && isold(op.order) && (forall a int, b int {keyAt(BufVal[buf], a), keyAt(BufVal[buf], b)} :: 0 <= a && a < nent(BufVal[buf]) && 0 <= b && b < nent(BufVal[buf]) && inOrder(op, keyAt(BufVal[buf], a)) && !inOrder(op, keyAt(BufVal[buf], b)) ==> a < b)
+//@   atreturn[C19] listedorder uses first3,ord3,rem3p,notin3: result1 == nil ==> new(buf) && isold(op.props) && isold(op.order) && (forall a int, b int, ja int, jb int {keyAt(BufVal[buf], a), keyAt(BufVal[buf], b), op.order[ja], op.order[jb]} :: 0 <= a && a < b && b < nent(BufVal[buf]) && 0 <= ja && ja < len(op.order) && 0 <= jb && jb < len(op.order) && op.order[ja] == keyAt(BufVal[buf], a) && op.order[jb] == keyAt(BufVal[buf], b) ==> ja < jb)
+//@   atreturn[C19] restsorted uses first3,lst3,rem3p,sorted3: result1 == nil ==> new(buf) && isold(op.props) && isold(op.order) && (forall a int, b int {keyAt(BufVal[buf], a), keyAt(BufVal[buf], b)} :: 0 <= a && a < b && b < nent(BufVal[buf]) && !inOrder(op, keyAt(BufVal[buf], a)) && !inOrder(op, keyAt(BufVal[buf], b)) ==> keyAt(BufVal[buf], a) <= keyAt(BufVal[buf], b))
 //@   atreturn[C19] bytes uses : result1 == nil ==> BytesVal[result0.arr] == bs_content(BufVal[buf])
 //@   loop "range op.order"
 //@     invariant[C19] first1: $idx < len(op.order) && new(buf) && new(first) && first == (nent(BufVal[buf]) == 0) && nent(BufVal[buf]) >= 0
@@ -478,7 +481,7 @@ package jsonschema
 //@     invariant[C19] val3 uses first3,in3: new(buf) && newOrNil(remaining) && isold(op.props) && (forall i int {remaining[i]} :: 0 <= i && i <= $idx ==> valAt(BufVal[buf], pre(nent(BufVal[buf])) + i) == op.props[remaining[i]])
 //@     invariant[C19] rem3p uses first3,rem3,val3: new(buf) && newOrNil(remaining) && isold(op.props) && (forall p int {keyAt(BufVal[buf], p)} :: pre(nent(BufVal[buf])) <= p && p < nent(BufVal[buf]) ==> keyAt(BufVal[buf], p) == remaining[p - pre(nent(BufVal[buf]))] && valAt(BufVal[buf], p) == op.props[remaining[p - pre(nent(BufVal[buf]))]])
 //@     invariant[C19] same3b uses first3,same3: new(buf) && (forall i int {pre(keyAt(BufVal[buf], i))} :: 0 <= i && i < pre(nent(BufVal[buf])) ==> keyAt(BufVal[buf], i) == pre(keyAt(BufVal[buf], i)) && valAt(BufVal[buf], i) == pre(valAt(BufVal[buf], i)))
-//@     invariant[C19] lst3 uses first3,first1,snd1,proc1,same3: new(buf) && new(processed) && isold(op.order) && (forall p int {keyAt(BufVal[buf], p)} :: 0 <= p && p < pre(nent(BufVal[buf])) ==> inOrder(op, keyAt(BufVal[buf], p)) && has(processed, keyAt(BufVal[buf], p)) && processed[keyAt(BufVal[buf], p)])
+//@     invariant[C19] lst3 uses first3,first1,snd1,proc1,same3: new(buf) && new(processed) && isold(op.order) && isold(op.props) && (forall p int {keyAt(BufVal[buf], p)} :: 0 <= p && p < pre(nent(BufVal[buf])) ==> inOrder(op, keyAt(BufVal[buf], p)) && has(processed, keyAt(BufVal[buf], p)) && processed[keyAt(BufVal[buf], p)] && has(op.props, keyAt(BufVal[buf], p)) && valAt(BufVal[buf], p) == op.props[keyAt(BufVal[buf], p)])
 //@     invariant[C19] notin3 uses first1,done1,proc1,in3: newOrNil(remaining) && isold(op.order) && (forall i int {remaining[i]} :: 0 <= i && i < len(remaining) ==> !inOrder(op, remaining[i]))
 //@     invariant[C19] ord3 uses first3,first1,ord1,same3: new(buf) && isold(op.order) && (forall a int, b int, ja int, jb int {keyAt(BufVal[buf], a), keyAt(BufVal[buf], b), op.order[ja], op.order[jb]} :: 0 <= a && a < b && b < pre(nent(BufVal[buf])) && 0 <= ja && ja < len(op.order) && 0 <= jb && jb < len(op.order) && op.order[ja] == keyAt(BufVal[buf], a) && op.order[jb] == keyAt(BufVal[buf], b) ==> ja < jb)
 //@     invariant[C19] procin3 uses first3,first1,proc1,same3,same3b: new(buf) && new(processed) && (forall k string {has(processed, k)} :: has(processed, k) && processed[k] ==> (exists p int :: 0 <= p && p < pre(nent(BufVal[buf])) && keyAt(BufVal[buf], p) == k))
